@@ -48,6 +48,14 @@ def gen_cases(tier, seed):
                    "same_seed": True, "env": pipeline.gen_env(rng, batch, 3, same_seed=True)}
             n += 1
         k += 1
+    # (c') characters outside the alphabet that file formats tend to treat specially (always in their raw spelling)
+    for j, s in enumerate(pipeline.odd_strings()):
+        for form in ((j % 3,) if quick else (0, 1, 2)):
+            rng = Rng(derive(seed, PROP, "odd", j, form))
+            batch = "fault_free" if rng.chance(1, 2) else "benign"
+            yield {"prop": PROP, "id": "u%d" % n, "batch": batch, "kind": "string", "s": s, "raw": True, "form": form,
+                   "same_seed": True, "env": pipeline.gen_env(rng, batch, 3, same_seed=True)}
+            n += 1
     # (d) odd entry file names
     for i, name in enumerate(ENTRY_NAMES):
         for j, s in enumerate(["plain", 'q"\\ \t\n']):
